@@ -17,7 +17,7 @@ RULE = ("modules of ct_add_test / ct_add_section / add_test commands with NAME a
         "first, or an argument equal to the name, or a keyword-substring argument; distinct by SHA-1 of the case")
 ASSUMPTIONS = ["every test command carries exactly one NAME <value> pair; argument values never equal NAME or EXPECTFAIL",
                "declarations are directly followed by their undocumented implementing definition"]
-BUDGET = {"quick": {"shards": 4, "examples": 300}, "thorough": {"shards": 16, "examples": 4000}}
+BUDGET = {"quick": {"shards": 8, "examples": 250}, "thorough": {"shards": 16, "examples": 4000}}
 
 
 def strategy(tier):
